@@ -217,6 +217,21 @@ fn c06(rng: &mut Rng, out: &mut Fails) {
         let got = ExponentialFamily::Poisson.penalized_deviance(&y, &mu, al, &coef);
         if !close(got, want, 1e-12) { fail(out, "ExponentialFamily::penalized_deviance", "C06.pdev", format!("y={:?} mu={:?} alpha={} coef={:?}", y, mu, al, coef), format!("{}", got), format!("{}", want)); }
     }
+    // score = family deviance of the responses against the predictions
+    {
+        let n = 6; let p = 2; let mut x = vec![0.; n * p];
+        for i in 0..n { x[i * p] = 1.; x[i * p + 1] = i as f64 / 3.; }
+        let yy = [1.0, 2.0, 2.0, 4.0, 5.0, 9.0];
+        let mut g = GLM::new(ExponentialFamily::Poisson); g.set_coef(&[0.3, 0.6]);
+        let fitted = catch(|| { let mut h = GLM::new(ExponentialFamily::Poisson); let _ = h.fit(&x, &yy, 100); h.predict(&x).ok().map(|m| (h, ExponentialFamily::Poisson.deviance(&yy, &m.v))) });
+        if let Some(Some((h, want))) = fitted {
+            match catch(|| h.score(&x, &yy)) {
+                Some(sc) => if !close(sc, want, 1e-12) { fail(out, "GLM::score", "C06.score.def", "Poisson, 6 observations".into(), format!("{}", sc), format!("{}", want)); },
+                None => fail(out, "GLM::score", "C06.score.def", "Poisson, 6 observations, fitted model".into(), "panic".into(), format!("{}", want)),
+            }
+        }
+        let _ = g;
+    }
     // an unconverged fit reports an error, not a wrong answer
     {
         let n = 12; let p = 2; let mut x = vec![0.; n * p]; let mut yy = vec![0.; n];
